@@ -33,8 +33,8 @@ VER_ATTRS = [S('1.0.0'), S('1.9.0'), S('1.10.0'), S('2.0.0'), S('1.0.0-beta'), S
              S('1.0.0\n'), S('1.0.0\r\n'), S('1.0.0 '), S('\n1.0.0'), S('1.0.0\t'), S('1.0.0-rc.1\r\n'), S('1.0.0\r'),
              S('1.0.0-\u212a'), S('1.0.0+build.\u212a'), S('1.0.0-\u0130'), S('1.0.0-RC.1'), S('1.0.0-\u00e9'), S('\uff11.0.0'), S('1.0.0-rc\u2024 1')]
 STRINGER_ATTRS = [('str', b'abc'), ('str', b'ABC'), ('str', b'1.0.0'), ('str', b''), ('strptr', b'abc'), ('strpanic',), ('strnilptr',), ('strselfpanic',), ('strpanicinvop',), ('strpanicinvopw',),
-                  ('jnum', b'12'), ('jnum', b'2.25'), ('jnum', b'1'), ('jnum', b'abc'), ('strslice', b'abc'), ('strslice', b'10.0.0.1'), ('strreent', b'abc'), ('strreent', b'1.0.0'), ('strsame', b'abc'), ('strsame', b'1.0.0'), ('strtm', b'abc'), ('strtm', b'2024-01-02 03:04:05 +0000 UTC'), ('strver', b'1.0.0'), ('strverptr', b'1.0.0'), ('strver', b'1.2.3-rc.1+b5')]
-MISC_ATTRS = [('nil',), ('b', True), ('b', False), ('m', []), ('m', [(b'a', I(1))]), ('nilmap',)] + [('o', t) for t in list(range(21)) + [22, 23, 24, 25, 26, 27, 29, 30, 31, 32, 33, 34, 35, 36, 37, 38, 39, 40, 41, 42, 43, 44, 45, 46, 47, 48, 49, 50, 51, 52]]
+                  ('jnum', b'12'), ('jnum', b'2.25'), ('jnum', b'1'), ('jnum', b'abc'), ('strslice', b'abc'), ('strslice', b'10.0.0.1'), ('strreent', b'abc'), ('strreent', b'1.0.0'), ('strsame', b'abc'), ('strsame', b'1.0.0'), ('strtm', b'abc'), ('strtm', b'2024-01-02 03:04:05 +0000 UTC'), ('strbig', b'5'), ('strbig', b'12345678901234567890123'), ('strbig', b'1'), ('strver', b'1.0.0'), ('strverptr', b'1.0.0'), ('strver', b'1.2.3-rc.1+b5')]
+MISC_ATTRS = [('nil',), ('b', True), ('b', False), ('m', []), ('m', [(b'a', I(1))]), ('nilmap',)] + [('o', t) for t in list(range(21)) + [22, 23, 24, 25, 26, 27, 29, 30, 31, 32, 33, 34, 35, 36, 37, 38, 39, 40, 41, 42, 43, 44, 45, 46, 47, 48, 49, 50, 51, 52, 53, 54, 55, 56, 57, 58, 59]]
 OTHER_TYPED = [a for a in MISC_ATTRS if a[0] == 'o']   # every non-string, non-number Go type the driver can build
 ABSENT = ('absent',)   # pseudo value: key not in the object
 
@@ -368,7 +368,8 @@ CONFUSABLES = ['x eq \u201cabc\u201d', 'x eq \u2018a\u2019', 'x in [\u201ca\u201
                'x eq 1 and\u00a0y eq 2', 'x \u2260 1', 'x \u2265 1', 'x \u2264 1', 'x eq \u22121', 'x eq 1\u200b', 'x\u200b eq 1', 'x eq "a\u201d', '\u201cx\u201d eq 1', 'x eq 1 \u2227 y eq 2',
                'x in \uff3b1,2\uff3d', 'x in [1\uff0c2]', 'x eq 1\uff0e5', 'x.y eq 1'.replace('.', '\u3002'), 'x eq true'.replace('t', '\u0442'), 'n\u043et (x eq 1)', '\ufeffx eq 1', 'x eq 1\ufeff',
                '\ufeff(x eq 1)', '\ufffex eq 1', '\u2060x eq 1', '\u00adx eq 1']
-FOREIGN = ['x <> 2', 'y <> 1 and x eq 1', '(s <> "abd")', 'not (x <> 3 and x <> 1)', 'x = 2', 'x === 2', 'x =< 2', 'x => 2', 'x !== 2', 'x ~= 2', 'x && y', 'x eq 1 && y eq 2', 'x eq 1 || y eq 2',
+FOREIGN = ['a eq "\\ud800"', 'a in ["ok","\\ud83d"]', 'a eq "\\ud83dx\\ude00"', 'a eq "\\udfff"', 'a eq "\\ud83d\\ude00"', 'a eq "\\u0000"', 'a eq "\\uFFFF"', 'a eq e+5', 'a gt E+12', 'a in e+0', 'a eq e5', 'a eq E-5', 'a eq 1e5', 'a eq -2E10', 'e5 eq 1', 'a.e7 eq "x"', 'E10 pr', 'e+5 eq 1',
+           '"x eq 1"', '"name eq \\"bob\\""', "'x eq 1'", '`x eq 1`', 'x <> 2', 'y <> 1 and x eq 1', '(s <> "abd")', 'not (x <> 3 and x <> 1)', 'x = 2', 'x === 2', 'x =< 2', 'x => 2', 'x !== 2', 'x ~= 2', 'x && y', 'x eq 1 && y eq 2', 'x eq 1 || y eq 2',
            'x eq 1 & y eq 2', 'x eq 1 | y eq 2', '!x', '!(x eq 1)', 'x is null', 'x is not null', 'x like "a"', 'x contains "a"', 'x not in [1]', 'x between 1 and 2', 'x eq 1 xor y eq 2', 'x >< 2', 'x <=> 2',
            'x \u2264 2', 'x \u2260 2', 'x \u2265 2', 'x eq 1 // the default tier', 'x eq 1//', '// note\nx eq 1', 'x eq 1 //\nand y eq 2', 'x eq 1 # c', '# c\nx eq 1', 'x eq 1 -- c', '/* c */ x eq 1', 'x eq 1 /* c */',
            'x eq /* c */ 1', 'x eq 1;', 'x eq 1; y eq 2', 'x eq 1, y eq 2', 'x eq 1 y eq 2', 'x eq 1 and\ty eq 2', 'x eq 1 AND\ny eq 2', 'x eq 1 and and y eq 2', 'x eq eq 1', 'x 1', 'eq 1', '1 eq x', '"a" eq x', 'x eq y',
